@@ -20,6 +20,7 @@ import (
 	_ "verif/harness/c16"
 	_ "verif/harness/c17"
 	_ "verif/harness/c18"
+	_ "verif/harness/c19"
 	_ "verif/harness/c20"
 
 	"github.com/sdcio/yang-parser/verifrt"
